@@ -417,7 +417,7 @@ pub fn gen_circuit(r: &mut Prng) -> Circuit {
         let label = match r.below(8) {
             0 => None,
             1 => Some(String::new()),
-            2 => Some((*r.pick(&["same", "same", "same ", " same", "same\t"])).to_string()),
+            2 => Some((*r.pick(&["same", "same", "same ", " same", "same\t", "Same", "SAME"])).to_string()),
             3 => Some((*r.pick(&["a<b&c", "Testdata", "Label", "dataString"])).to_string()),
             _ => Some(format!("test {k}")),
         };
@@ -485,7 +485,15 @@ pub fn suite_dig(ctx: &mut Ctx, suite: &str, n: u64) {
         ctx.tick(&xml);
         let mut names: Vec<String> = circuit.tests.iter().filter_map(|t| t.label.clone()).collect();
         // labels are compared verbatim: variants with blanks around them are other names
-        let variants: Vec<String> = names.iter().flat_map(|n| vec![format!("{n} "), format!(" {n}"), n.trim().to_string()]).collect();
+        // … and so are variants in another letter case, prefixes and extensions
+        let variants: Vec<String> = names
+            .iter()
+            .flat_map(|n| {
+                let mut cut = n.clone();
+                cut.pop();
+                vec![format!("{n} "), format!(" {n}"), n.trim().to_string(), n.to_uppercase(), n.to_lowercase(), cut, format!("{n}0")]
+            })
+            .collect();
         names.extend(variants);
         names.push("(unnamed)".into());
         names.push("no such test".into());
